@@ -2,7 +2,7 @@
 #include "static_cfg.hpp"
 
 #ifdef _OPENMP
-extern "C" int omp_get_num_procs(void) { return 64; }
+extern "C" int omp_get_num_procs(void) { return vf::g_fake_procs; }
 #endif // let 17..20 threads give 17..20 chunks on a 16-core box
 
 namespace vf {
